@@ -16,7 +16,7 @@ RULE = ("catalogue of 12 site classes (two of them with equal ALT counts out of 
         "targets} through site::Reader, each record's Site value compared with the model (whose per-record result is proved "
         "state-independent); the same histories and 4-8 record histories as whole runs with 8 boundary targets (a population projected to length 1, no reduction) against the model's spectrum; on the binary: create(A++B) = create(A) + create(B) and every tested permutation of the "
         "records prints identical bytes without projection, equal within 1e-9*records with. non-trivial = history with "
-        ">= 2 different classes")
+        ">= 2 different classes; cohorts of 70 and 140 samples with records skipping 1, 64, 65, 66, n-1, n samples followed by complete records")
 
 COLS = ["a", "b", "c", "d"]
 SM = [("a", "A"), ("b", "A"), ("c", "B"), ("d", "B")]
@@ -50,6 +50,28 @@ def check(rep, tier, seed):
             cases.append("sites %s %s %s %s" % (",".join(COLS), model_samples(SM), model_project(pr), model_records([CLASSES[c] for c in h])))
     compare_cases(rep, "site-histories", cases, tol=TOL, nontrivial=lambda c, m: len(set(m.split()[1:-1])) > 1,
                   classify=lambda c, m, i: "state-leak:site-reader", spec=True, both_builds=(tier == "thorough"))
+
+    # wide cohorts: what a record leaves behind may grow with the number of samples it skips (a list of 65, 100, 139 skipped
+    # samples must be as gone at the next record as a list of one)
+    wide = []
+    for n in (70, 140):
+        wcols = ["w%d" % i for i in range(n)]
+        wsm = [(c, "A" if i % 3 else "B") for i, c in enumerate(wcols)]
+        def wrec(nmiss, kind="./."):
+            r = [rng.choice(["0/0", "0/1", "1/1", "0|1"]) for _ in wcols]
+            for j in rng.sample(range(n), nmiss):
+                r[j] = kind
+            return r
+        wclasses = {"complete": lambda: wrec(0), "miss1": lambda: wrec(1), "miss64": lambda: wrec(64), "miss65": lambda: wrec(65), "miss66multi": lambda: wrec(66, "1/2"),
+                    "missmost": lambda: wrec(n - 1), "allmissing": lambda: wrec(n)}
+        wn = list(wclasses)
+        whist = [[a, b, "complete", "complete"] for a in wn for b in wn if "complete" in (a, b) or rng.random() < 0.3]
+        for h in (whist if tier == "thorough" else rng.sample(whist, 14)):
+            recs_w = [wclasses[c]() for c in h]
+            for pr in (None, ("s", [3, 3]), ("s", [2 * z + 1 for z in pop_sizes(wsm)])):
+                wide.append("sites %s %s %s %s" % (",".join(wcols), model_samples(wsm), model_project(pr), model_records(recs_w)))
+    compare_cases(rep, "site-histories-wide-cohorts", wide, tol=TOL, nontrivial=lambda c, m: len(set(m.split()[1:-1])) > 1,
+                  classify=lambda c, m, i: "state-leak:site-reader", spec=True)
 
     # whole runs over the same histories (the spectrum, i.e. after the projection's scratch buffer has been reused from record
     # to record), with targets on the boundary: a population projected away (length 1), no reduction (length 5)
